@@ -323,6 +323,11 @@ def run_c03(tier: str) -> int:
             for p in pinned[ek]:
                 if p not in m:
                     rep.violation("C03|pinned-path-missing|%s" % ek.split("::")[0], {"evaluation": ek, "path": p, "got": m})
+    # binding self-test: one more observation, an already seen content under a signature that is not
+    # its own, must be reported as a clash at exactly that position
+    n_real = len(observations)
+    if n_real:
+        observations.append({"c": observations[0]["c"], "k": "0" * 64, "p": observations[0]["p"], "e": "altered"})
     # TLC judges
     d = common.stage_spec({}, "sigtrace")
     tf = os.path.join(d, "obs.json")
@@ -333,7 +338,14 @@ def run_c03(tier: str) -> int:
     done = tr.printed("DONE")
     if not done or done[-1]["n"] != len(observations):
         raise MachineryError("SigTrace consumed %s of %d observations" % (done[-1]["n"] if done else None, len(observations)))
+    if n_real:
+        if not any(cl["at"] == n_real + 1 for cl in done[-1]["clashes"]):
+            raise MachineryError("binding self-test: SigTrace accepted an altered signature observation")
+        rep.cov["corrupted_observations_rejected"] = 1
+        observations = observations[:n_real]
     for cl in done[-1]["clashes"]:
+        if cl["at"] > n_real:
+            continue
         o = observations[cl["at"] - 1]
         m = meta[cl["at"] - 1]
         if cl["pinned"]:
